@@ -76,6 +76,12 @@ def apply_op(rows, op):
         make_derived(rows, op[1], op[2])
     elif k == 'add_component':
         add_component(rows, op[1], op[2])
+    elif k == 'add_udt':
+        from . import _c20_ref
+        _c20_ref.edit_add_udt(rows, op[1], op[2], op[3])
+    elif k == 'add_attr':
+        from . import _c20_ref
+        _c20_ref.edit_add_attr(rows, op[1], op[2], op[3])
     else:
         raise ValueError(op)
 
@@ -354,7 +360,7 @@ def real_cases(depth):
       bound='tests/resources/Simple_Model.xtuml and Globals.xtuml; every single edit (rename, retype to 11 types, reorder, derive, '
             'toggle Mult/Cond, phrase, 5 row orders, added component) at every site x {whole, Comp} x {derived off, on}; '
             'thorough: every pair of edits; non-trivial = every identifier/association key is an attribute of the built class',
-      shards=8, weight=3)
+      shards=6, weight=3)
 def real_models(ctx):
     for i, case in enumerate(real_cases(1 if ctx.quick else 2)):
         if i % ctx.nshards != ctx.shard:
@@ -404,9 +410,78 @@ def synth_cases(quick, rng_seed):
             'reflexive linked, subtype with 1-2 subtypes) x 16 Mult/Cond combinations x 5 package/component layouts x '
             '{whole, each component} x derived on/off (exhaustive); plus 400 (quick) / 6000 (thorough) seeded random diagrams '
             'with attributes of 10 types, second identifiers, derived attributes and a script of 0-2 edits',
-      shards=7, weight=3)
+      shards=6, weight=3)
 def synthesised(ctx):
     for i, case in enumerate(synth_cases(ctx.quick, ctx.seed)):
+        if i % ctx.nshards != ctx.shard:
+            continue
+        if ctx.expired():
+            ctx.exhausted = False
+            break
+        check_case(ctx, case)
+    else:
+        ctx.exhausted = True
+
+
+LAYER_BASES = ['boolean', 'integer', 'real', 'string', 'unique_id', 'My_Enum', 'date', 'timestamp', 'inst_ref<Object>']
+SYNTH_LAYER_BASES = ['boolean', 'integer', 'real', 'string', 'unique_id', 'Colour', 'Len', 'date']
+
+
+def layer_script(base, depth, wheres):
+    """User types Layer1 on base, Layer2 on Layer1, ...; wheres: where each layer lives (None: global, else a component)."""
+    script, below = [], base
+    for d in range(depth):
+        script.append(['add_udt', 'Layer%d' % (d + 1), below, wheres[d % len(wheres)]])
+        below = 'Layer%d' % (d + 1)
+    return script, below
+
+
+def layer_cases(quick):
+    """A stack of 1..3 user types on every base type, used by an identifying attribute that referential attributes refer to
+    (so the referential attributes and the association keys follow) and by a new attribute."""
+    n = 0
+    for base in LAYER_BASES:
+        for depth in (1, 2, 3):
+            script, top = layer_script(base, depth, [[None], ['Comp'], [None, 'Comp']][n % 3])
+            for use in (['retype_attr', 'Class', 'Id', top], ['retype_attr', 'Subtype', 'Id', top], ['add_attr', 'Supertype', 'Added', top]):
+                n += 1
+                for comp in (None, 'Comp') if not quick else [(None, 'Comp')[n % 2]]:
+                    yield dict(seed='Simple_Model', script=script + [use], comp=comp, derived=False, api=('mk', 'build')[n % 2])
+    shapes = [dict(classes=S.classes_for(2), rels=[['simple', 1, 'A', 'B', 0, 0, 1, 1, 'has', 'is of']]),
+              dict(classes=S.classes_for(1), rels=[['simple', 2, 'A', 'A', 0, 1, 0, 1, 'follows', 'leads']]),
+              dict(classes=S.classes_for(3), rels=[['linked', 3, 'C', 'A', 'B', 1, 0, 1, 1, 'near', 'far']]),
+              dict(classes=S.classes_for(3), rels=[['subsup', 6, 'A', ['B', 'C']]]),
+              dict(classes=S.classes_for(3), rels=[['simple', 1, 'B', 'A', 1, 1, 0, 0, '', ''], ['subsup', 2, 'B', ['C']]])]
+    n = 0
+    for d in shapes:
+        for layout in ('L0', 'L1', 'L2', 'L3', 'L4'):
+            dd = dict(d, layout=layout)
+            comps = [None] + S.components_of(layout)
+            rows = S.build(dd)
+            t = R.Tables(rows)
+            kl_of = dict((o['Obj_ID'], o['Key_Lett']) for o in t['O_OBJ'])
+            referred = sorted(set(kl_of[r['BObj_ID']] for r in t['O_RATTR']))
+            for base in SYNTH_LAYER_BASES:
+                for depth in (1, 2, 3):
+                    n += 1
+                    if quick and n % 4:
+                        continue
+                    script, top = layer_script(base, depth, comps)
+                    for kl in referred:
+                        if 'Id' in R.attr_order(rows, kl):
+                            yield dict(seed=['synth', dd], script=script + [['retype_attr', kl, 'Id', top]], comp=comps[n % len(comps)],
+                                       derived=False, api='mk')
+
+
+@item('type-layers', stands_in_for=['bridgepoint.ooaofooa.mk_class', 'bridgepoint.ooaofooa.get_attribute_type',
+                                    'bridgepoint.ooaofooa._get_data_type_name'],
+      bound='stacks of 1-3 user types on each of 9 base types (5 supported core types, enumeration, user type, date, timestamp, '
+            'inst_ref<Object>), the layers global and/or in a component, as type of an identifying attribute that referential '
+            'attributes refer to and of a new attribute: Simple_Model (whole / Comp); 5 synthesised relationship shapes x 5 '
+            'layouts (quick: every fourth stack); non-trivial = every identifier/association key is an attribute of the built class',
+      shards=3, weight=1)
+def type_layers(ctx):
+    for i, case in enumerate(layer_cases(ctx.quick)):
         if i % ctx.nshards != ctx.shard:
             continue
         if ctx.expired():
